@@ -34,7 +34,10 @@
 //   position; on a fresh sequence number every receiver-accepted pair with data_size 1..=10,
 //   fragment_size 1..=5, every start, count in {0,1,2,65535} against assembler sizes {2,4,5}
 //   (singly against 1..=6).  Real Writer: every (length, fragment size) case once through
-//   Writer::process_writer_command over a 127.0.0.1 UDP socket (reads the clock, no sleeps).
+//   Writer::process_writer_command over a 127.0.0.1 UDP socket (reads the clock, no sleeps), every
+//   second sample written with a related_sample_identity.  Inline QoS (Q flag) in every DATAFRAG:
+//   every case with a related_sample_identity (real builder) and with PID_KEY_HASH + sentinel in a
+//   hand-made wire image, in order / reversed / reversed-doubled, interleaved with a second sample.
 #[cfg(test)]
 mod verif_xc_fragments {
   use std::{
@@ -50,7 +53,7 @@ mod verif_xc_fragments {
     dds::{
       qos::QosPolicies,
       statusevents::{sync_status_channel, DataWriterStatus},
-      with_key::WriteOptions,
+      with_key::{WriteOptions, WriteOptionsBuilder},
     },
     messages::submessages::{submessage::WriterSubmessage, submessage_flag::FromEndianness},
     network::udp_sender::UDPSender,
@@ -63,6 +66,7 @@ mod verif_xc_fragments {
       cache_change::CacheChange,
       guid::{EntityId, EntityKind, GuidPrefix, GUID},
       locator::Locator,
+      rpc::SampleIdentity,
     },
     RepresentationIdentifier,
   };
@@ -113,30 +117,84 @@ mod verif_xc_fragments {
 
   // Fragment a sample exactly as the writer does and carry every DATAFRAG over the wire.
   fn make_sample(w: u8, sn: i64, vlen: usize, fs: u16, key: bool, e: Endianness) -> Sample {
+    make_sample_q(w, sn, vlen, fs, key, e, Q::None)
+  }
+
+  // inline QoS carried by every DATAFRAG of the sample
+  #[derive(Clone, Copy, PartialEq, Debug)]
+  enum Q {
+    None,
+    Rsi,            // written with a related_sample_identity: the real builder adds the inline QoS
+    ForeignKeyHash, // as other vendors send it: PID_KEY_HASH + sentinel, wire image made by hand
+  }
+  fn rsi_options() -> WriteOptions {
+    WriteOptionsBuilder::new().related_sample_identity(SampleIdentity { writer_guid: wguid(9), sequence_number: SequenceNumber::new(0x0102_0304_0506_0708) }).build()
+  }
+  // a whole RTPS message with one DATAFRAG carrying inline QoS {PID_KEY_HASH}, byte by byte (RTPS 9.4.5.5)
+  fn foreign_image(w: u8, sn: i64, k: u32, size: u32, fs: u16, key: bool, payload: &[u8], e: Endianness) -> Vec<u8> {
+    let le = e == Endianness::LittleEndian;
+    let u16b = |x: u16| if le { x.to_le_bytes().to_vec() } else { x.to_be_bytes().to_vec() };
+    let u32b = |x: u32| if le { x.to_le_bytes().to_vec() } else { x.to_be_bytes().to_vec() };
+    let mut v = b"RTPS".to_vec();
+    v.extend_from_slice(&[2, 3, 0x01, 0x03]); // version 2.3, some other vendor
+    v.extend_from_slice(&wguid(w).prefix.bytes);
+    v.extend_from_slice(&[0x16, (le as u8) | 0x02 | if key { 0x04 } else { 0 }]);
+    v.extend(u16b((32 + 24 + payload.len()) as u16));
+    v.extend(u16b(0)); // extraFlags
+    v.extend(u16b(28)); // octetsToInlineQos
+    v.extend_from_slice(&[0, 0, 0, 0]); // readerId
+    v.extend_from_slice(&wguid(w).entity_id.to_slice());
+    v.extend(u32b((sn >> 32) as u32));
+    v.extend(u32b(sn as u32));
+    v.extend(u32b(k));
+    v.extend(u16b(1)); // fragmentsInSubmessage
+    v.extend(u16b(fs));
+    v.extend(u32b(size));
+    v.extend(u16b(0x0070)); // PID_KEY_HASH
+    v.extend(u16b(16));
+    v.extend_from_slice(&[0xE1, 0xE2, 0xE3, 0xE4, 0xE5, 0xE6, 0xE7, 0xE8, 0xE9, 0xEA, 0xEB, 0xEC, 0xED, 0xEE, 0xEF, 0xF0]);
+    v.extend(u16b(0x0001)); // PID_SENTINEL
+    v.extend(u16b(0));
+    v.extend_from_slice(payload);
+    v
+  }
+
+  fn make_sample_q(w: u8, sn: i64, vlen: usize, fs: u16, key: bool, e: Endianness, q: Q) -> Sample {
     let (data, full) = written(w, sn, vlen, key);
     let size = full.len();
-    let what = format!("writer={} sn={} size={} fs={} key={}", w, sn, size, fs, key);
+    let what = format!("writer={} sn={} size={} fs={} key={} inline_qos={:?} {:?}", w, sn, size, fs, key, q, e);
     assert!(size > fs as usize, "bad enumeration: {}", what);
     assert!(data.payload_size() == size, "XC-WITNESS label=frag.slice.len {}: payload_size() = {} but the sample has {} wire bytes", what, data.payload_size(), size);
-    let cc = CacheChange::new(wguid(w), SequenceNumber::new(sn), WriteOptions::default(), data);
+    let cc = CacheChange::new(wguid(w), SequenceNumber::new(sn), if q == Q::Rsi { rsi_options() } else { WriteOptions::default() }, data);
     let n = ceil_div(size, fs as usize); // "split": the number of fragments of the property statement
     let mut frags = vec![];
     for k in 1..=n {
-      let msg = MessageBuilder::new()
-        .data_frag_msg(&cc, EntityId::UNKNOWN, wguid(w), FragmentNumber::new(k as u32), fs, size as u32, e, None)
-        .add_header_and_build(wguid(w).prefix);
-      let built = datafrag_of(&msg);
-      assert!(built.is_some(), "XC-WITNESS label=frag.msg {} fragment={}: data_frag_msg did not produce exactly one DATAFRAG: {:?}", what, k, msg);
-      let wire = Bytes::from(msg.write_to_vec_with_ctx(e).unwrap());
-      let parsed = Message::read_from_buffer(&wire);
-      assert!(parsed.is_ok(), "XC-WITNESS label=frag.lemma.honest_valid {} fragment={}: the writer's own DATAFRAG is rejected by the parser: {:?}", what, k, parsed.err());
-      let got = datafrag_of(&parsed.unwrap());
-      assert!(got == built, "XC-WITNESS label=frag.msg {} fragment={}: DATAFRAG built {:?} but after the wire {:?}", what, k, built, got);
-      let (df, flags) = got.unwrap();
       let (from, to) = ((k - 1) * fs as usize, std::cmp::min(k * fs as usize, size));
+      let got = if q == Q::ForeignKeyHash {
+        let wire = Bytes::from(foreign_image(w, sn, k as u32, size as u32, fs, key, &full[from..to], e));
+        let parsed = Message::read_from_buffer(&wire);
+        assert!(parsed.is_ok(), "XC-WITNESS label=frag.lemma.honest_valid {} fragment={}: a well-formed DATAFRAG with inline QoS is rejected by the parser: {:?}; bytes {:?}", what, k, parsed.err(), &wire[..]);
+        let got = datafrag_of(&parsed.unwrap());
+        assert!(got.is_some(), "XC-WITNESS label=frag.msg {} fragment={}: the message did not parse to one DATAFRAG; bytes {:?}", what, k, &wire[..]);
+        got
+      } else {
+        let msg = MessageBuilder::new()
+          .data_frag_msg(&cc, EntityId::UNKNOWN, wguid(w), FragmentNumber::new(k as u32), fs, size as u32, e, None)
+          .add_header_and_build(wguid(w).prefix);
+        let built = datafrag_of(&msg);
+        assert!(built.is_some(), "XC-WITNESS label=frag.msg {} fragment={}: data_frag_msg did not produce exactly one DATAFRAG: {:?}", what, k, msg);
+        let wire = Bytes::from(msg.write_to_vec_with_ctx(e).unwrap());
+        let parsed = Message::read_from_buffer(&wire);
+        assert!(parsed.is_ok(), "XC-WITNESS label=frag.lemma.honest_valid {} fragment={}: the writer's own DATAFRAG is rejected by the parser: {:?}", what, k, parsed.err());
+        let got = datafrag_of(&parsed.unwrap());
+        assert!(got == built, "XC-WITNESS label=frag.msg {} fragment={}: DATAFRAG built {:?} but after the wire {:?}", what, k, built, got);
+        got
+      };
+      let (df, flags) = got.unwrap();
       assert!(
         df.writer_sn == SequenceNumber::new(sn) && u32::from(df.fragment_starting_num) == k as u32 && df.fragments_in_submessage == 1 && df.data_size as usize == size && df.fragment_size == fs
-          && flags.contains(DATAFRAG_Flags::Key) == key && !flags.contains(DATAFRAG_Flags::InlineQos),
+          && flags.contains(DATAFRAG_Flags::Key) == key && flags.contains(DATAFRAG_Flags::InlineQos) == (q != Q::None)
+          && df.inline_qos.as_ref().map_or(0, |l| l.parameters.len()) == match q { Q::None => 0, Q::Rsi => 2, Q::ForeignKeyHash => 1 },
         "XC-WITNESS label=frag.msg {} fragment={}: wrong DATAFRAG fields/flags: {:?} flags {:?}", what, k, df, flags);
       assert!(df.serialized_payload[..] == full[from..to], "XC-WITNESS label=frag.msg {} fragment={}: carries {:?}, bytes [{}, {}) of what was written are {:?}", what, k, &df.serialized_payload[..], from, to, &full[from..to]);
       assert!(u32::from(df.total_number_of_fragments()) as usize == n, "XC-WITNESS label=frag.count.ceil {} fragment={}: reader expects {} fragments, ceil(size/fs) = {}", what, k, u32::from(df.total_number_of_fragments()), n);
@@ -323,6 +381,34 @@ mod verif_xc_fragments {
       }
     }
     assert!(n_orders > 100_000 && n_arrivals > 500_000 && n_deliveries > 50_000, "vacuity guard: {} orders, {} arrivals, {} deliveries", n_orders, n_arrivals, n_deliveries);
+  }
+
+  // every DATAFRAG of the sample carries inline QoS (Q flag): put there by the real builder for a
+  // related_sample_identity, or PID_KEY_HASH as other vendors send it (wire image made by hand)
+  #[test]
+  fn xc_frag_inline_qos_datafrags() {
+    let mut n = 0u64;
+    for (vlen, fs, key, e) in cases() {
+      for q in [Q::Rsi, Q::ForeignKeyHash] {
+        let a = make_sample_q(1, 3, vlen, fs, key, e, q);
+        let b = make_sample_q(1, 4, vlen + 3, fs, !key, e, if q == Q::Rsi { Q::None } else { Q::Rsi });
+        let id: Vec<u32> = (1..=a.n()).collect();
+        // the doubled order ends with a second arrival of fragment 1 after the delivery: completing that is a second full set
+        for (oi, order) in [id.clone(), id.iter().rev().copied().collect::<Vec<u32>>(), id.iter().rev().flat_map(|k| [*k, *k]).collect()].into_iter().enumerate() {
+          let mut run = Run::new(&format!("DATAFRAGs with inline QoS ({:?})", q), fs, vec![&a, &b]);
+          for (i, k) in order.iter().enumerate() {
+            run.feed(&a, *k);
+            if i < b.n() as usize { run.feed(&b, b.n() - i as u32); }
+          }
+          run.complete(&a);
+          for k in 1..=b.n() { if run.delivered.get(&4).is_none() { run.feed(&b, k); } }
+          let want = if oi == 2 { 2 } else { 1 };
+          assert!(run.delivered.get(&3) == Some(&want) && run.delivered.get(&4) == Some(&1), "XC-WITNESS label=frag.complete.only {}: deliveries per sequence number {:?}, expected {} for 3 and 1 for 4", run.ctx(), run.delivered, want);
+          n += 1;
+        }
+      }
+    }
+    assert!(n > 1000, "vacuity guard: {} runs", n);
   }
 
   // all ways to merge x and y keeping the order inside each
@@ -580,7 +666,8 @@ mod verif_xc_fragments {
       let what = format!("real Writer: data_max_size_serialized={} sample(sn={} size={} key={}) {:?}", fs, sn, size, key, e);
       w.data_max_size_serialized = fs as usize;
       w.endianness = e;
-      cmd_s.send(WriterCommand::DDSData { ddsdata: data, write_options: WriteOptions::default(), sequence_number: SequenceNumber::new(sn) }).unwrap();
+      let rsi = sn % 2 == 0; // every second sample is written with a related_sample_identity -> inline QoS in its DATAFRAGs
+      cmd_s.send(WriterCommand::DDSData { ddsdata: data, write_options: if rsi { rsi_options() } else { WriteOptions::default() }, sequence_number: SequenceNumber::new(sn) }).unwrap();
       w.process_writer_command();
 
       // collect the datagrams of this sample: the DATAFRAGs, then the HEARTBEAT that follows them
@@ -607,8 +694,8 @@ mod verif_xc_fragments {
       let s = Sample { sn, key, fs, full: full.clone(), frags: got };
       for (k, (df, flags)) in s.frags.iter().enumerate() {
         let (from, to) = (k * fs as usize, std::cmp::min((k + 1) * fs as usize, size));
-        assert!(df.writer_sn == SequenceNumber::new(sn) && df.fragments_in_submessage == 1 && df.data_size as usize == size && df.fragment_size == fs && flags.contains(DATAFRAG_Flags::Key) == key && df.serialized_payload[..] == full[from..to],
-          "XC-WITNESS label=frag.msg {} fragment={}: must announce size {} / fragment size {} and carry bytes [{}, {}) = {:?}; got {:?} flags {:?}", what, k + 1, size, fs, from, to, &full[from..to], df, flags);
+        assert!(df.writer_sn == SequenceNumber::new(sn) && df.fragments_in_submessage == 1 && df.data_size as usize == size && df.fragment_size == fs && flags.contains(DATAFRAG_Flags::Key) == key && flags.contains(DATAFRAG_Flags::InlineQos) == rsi && df.inline_qos.is_some() == rsi && df.serialized_payload[..] == full[from..to],
+          "XC-WITNESS label=frag.msg {} related_sample_identity={} fragment={}: must announce size {} / fragment size {} and carry bytes [{}, {}) = {:?}; got {:?} flags {:?}", what, rsi, k + 1, size, fs, from, to, &full[from..to], df, flags);
       }
       // in the order sent, and in reverse with every fragment doubled
       let mut run = Run::new(&what, fs, vec![&s]);
